@@ -7,8 +7,8 @@ V=$(cd "$(dirname "$0")/.." && pwd)
 export GOFLAGS=-mod=mod GOPROXY=off GOSUMDB=off GOTOOLCHAIN=local GOWORK=off
 mkdir -p /tmp/wt/corpus
 one() {
-  patch=$1
-  name=$(echo "$patch" | sed 's#^/verif/##; s#/patch.diff$##; s#[/ ]#_#g')
+  patch=$(realpath "$1")
+  name=$(echo "$patch" | sed 's#^/verif/##; s#^/tmp/wt/##; s#/patch.diff$##; s#[/ ]#_#g')
   tmp=$(mktemp -d /tmp/storcorp.XXXXXX)
   mkdir -p "$tmp/repo"
   rsync -a --exclude .git /repo/ "$tmp/repo/"
